@@ -78,7 +78,9 @@ type controller struct {
 	inHand     map[int]bool
 	expired    map[int]bool
 	launched   map[string]bool
-	pmap, hmap map[int]int  // specification process id -> harness call number
+	pmap, hmap map[int]int // specification process id -> harness call number
+	lockHeld   bool
+	plan       []planLine
 	wokePC     map[int]bool // the shutdown call h closed a PacketConn after its select (its wake-up is already counted)
 	deferred   map[int]bool // starter p sits at gate.serve.defer with SDrain already counted
 	dropDrain  map[int]bool
@@ -93,6 +95,19 @@ func (c *controller) quiet() {
 	ok, snap := sched.WaitQuiet(settle)
 	if !ok {
 		hx.Die("gated run did not settle:\n%s\n%s", stacksOf(snap), strings.Join(c.w.R.Debug(), "\n"))
+	}
+	// Everything is parked at a gate, blocked in the fake net, in user code (handler, NotifyStartedFunc)
+	// or finished; no gate is under srv.lock.  A goroutine that WAITS for srv.lock now is waiting
+	// for a lock held across a gate or across user code.
+	if c.lockHeld {
+		return
+	}
+	for _, g := range snap {
+		if (strings.HasPrefix(g.State, "sync.RWMutex.") || g.State == "sync.Mutex.Lock") && strings.Contains(g.Stack, "dns.(*Server).") {
+			c.lockHeld = true
+			c.w.sum.Mis("server/lock-held-across-user-code", "at quiescence a goroutine waits for srv.lock, which nothing running holds: "+firstFrames(g.Stack),
+				map[string]interface{}{"mode": c.mode, "plan": c.plan, "events": c.w.R.Events()})
+		}
 	}
 }
 
@@ -114,6 +129,10 @@ func (c *controller) observe() []label {
 			default:
 				out = append(out, lab("SReturn", e.P))
 			}
+		case "notify.exit":
+			out = append(out, lab("SNotify", e.P))
+		case "handler.hijack":
+			out = append(out, lab("WHijack", e.C))
 		case "h.sparepc":
 			out = append(out, lab("HSparePC"))
 		case "h.sparelsn":
@@ -305,6 +324,8 @@ func (c *controller) perform(l label) (fiat []label, ok bool) {
 		c.w.Shutdown()
 		c.quiet()
 		return nil, rel(h(0), "", "gate.shutdown.enter")
+	case "SNotify":
+		return nil, rel(s(0), "", "h.notify")
 	case "SCheck":
 		return nil, rel(s(0), "", "gate.serve.top")
 	case "SAcceptOk", "SAcceptErr":
@@ -347,6 +368,8 @@ func (c *controller) perform(l label) (fiat []label, ok bool) {
 		return nil, rel(wk(0), "reply", "h.park")
 	case "WHClose":
 		return nil, rel(wk(0), "close", "h.park")
+	case "WHijack":
+		return nil, rel(wk(0), "hijack", "h.park")
 	case "WHandlerExit":
 		return nil, rel(wk(0), "exit", "h.park")
 	case "WUnreg":
@@ -485,6 +508,7 @@ func (c *controller) compare(step int, l label, p *proj, plan []planLine) {
 
 // run forces the plan, then lets everything finish.
 func (c *controller) run(plan []planLine) {
+	c.plan = plan
 	for i, st := range plan {
 		l := mkLabel(st.Act)
 		if l.Name == "" {
@@ -514,6 +538,9 @@ func (c *controller) run(plan []planLine) {
 				break
 			}
 			c.ahead = append(c.ahead, got...)
+		}
+		if l.Name == "StFailed" {
+			c.w.CheckListeners(l.Args[0], "fail", map[string]interface{}{"plan": plan})
 		}
 		c.realised++
 		if len(c.ahead) == 0 && st.Proj != nil {
